@@ -343,7 +343,7 @@ fn case_variants(s: &str) -> Vec<String> {
 /// Long and deep statements (hundreds of operands, dozens of nested groups) through if / elseif /
 /// while / not, against values computed here.
 fn scale(w: &mut Worker) {
-    let counts: Vec<usize> = with_thresholds_usize(w.tier.pick(vec![50, 300], vec![50, 300, 3000]), w.tier.pick(1024, 16384));
+    let counts: Vec<usize> = with_thresholds_usize(w.tier.pick(vec![50, 300, 6000], vec![50, 300, 3000, 6000, 50000]), w.tier.pick(1024, 16384));
     let mut cases: Vec<(String, Vec<String>, bool)> = vec![];
     for &n in &counts {
         let mut all_true: Vec<String> = vec![];
